@@ -1502,6 +1502,13 @@ class RTCSctpTransport(AsyncIOEventEmitter):
             for stream_id in list(self._data_channels.keys()):
                 self._data_channel_closed(stream_id)
 
+            # data channels which were never assigned an id are only known
+            # through the messages they have queued
+            for channel, _, _ in self._data_channel_queue:
+                if channel.readyState != "closed":
+                    channel._setReadyState("closed")
+            self._data_channel_queue.clear()
+
             # no more events will be emitted, so remove all event listeners
             # to facilitate garbage collection.
             self.remove_all_listeners()
